@@ -1,9 +1,10 @@
 SPECIFICATION Spec
 CONSTANTS
-  Inputs = {1}
-  Biases = {2}
-  Hidden = {4, 5}
-  OutSet = {3}
+  Inputs = {1, 2}
+  Biases = {3, 4}
+  Hidden = {7, 8}
+  OutSet = {5, 6}
+  Shapes = {{1, 3, 5, 7, 8}, {1, 5, 7, 8}}
   Weights <- W2
   InVals <- V2
   OrderKinds = {"IBOH", "IBOHr"}
